@@ -30,6 +30,7 @@ fn main() {
     }
     ba_harness::world::quiet_panics();
     let report = match prop.as_str() {
+        "c11" => props::c11::run(&cfg),
         "c16" => props::c16::run(&cfg),
         _ => { eprintln!("unknown property {}", prop); std::process::exit(2); }
     };
